@@ -299,6 +299,31 @@ def run(ctx):  # noqa: C901, PLR0912, PLR0915
                    f'enum {name}: declared {have} but XSD enumerates {sorted(lits)}', where=f'enum {name}',
                    witness={'missing': sorted(set(lits) - set(have)), 'extra': sorted(set(have) - set(lits))})
     ctx.floor('C05.R1', n_en, 18, 'enumerations compared')
+    # child element order of the descriptor containers: sort_child_nodes() arranges the written children by the
+    # _child_elements_order tables (concatenated along the class hierarchy); the order must be the xs:sequence of the type
+    DCONT = 'sdc11073.mdib.descriptorcontainers'
+    n_ord = 0
+    for q, ci in sorted(repo.classes.items()):
+        if not q.startswith(DCONT + '.'):
+            continue
+        nt = ci.assigns.get('NODETYPE')
+        tname = nt.attr if isinstance(nt, ast.Attribute) else None
+        if tname is None or tname not in xsd.types:
+            continue
+        order = []
+        for c in reversed(repo.mro(q)):
+            v = repo.classes[c].assigns.get('_child_elements_order') if c in repo.classes else None
+            if isinstance(v, (ast.Tuple, ast.List)):
+                order += [e.attr for e in v.elts if isinstance(e, ast.Attribute)]
+        want = [n for n, _mn, _mx in xsd.flat(tname)[1]]
+        n_ord += 1
+        ok = order == want
+        ctx.ob('C05.R1', f'child order {ci.name}', ok,
+               f'{ci.name}: children are written in the order of the xs:sequence of {tname}' if ok else
+               f'{ci.name}: _child_elements_order gives {order}, the schema sequence of {tname} is {want}: a descriptor that '
+               f'has the misplaced optional child is written as schema-invalid XML', where=q, line=ci.node.lineno,
+               witness={'code': order, 'xsd': want})
+    ctx.floor('C05.R1', n_ord, 15, 'descriptor containers with a child element order')
 
     # ------------------------------------------------------------------ R2
     desc = [q for q in repo.classes if q.startswith(XSTRUCT + '.') and f'{XSTRUCT}._XmlStructureBaseProperty' in repo.mro(q)]
